@@ -91,7 +91,7 @@ def fam_parse(s):
 
 def run(tier, seed, broken_proof=False):
     rng = random.Random(seed + 505)
-    count = 90 if tier == "quick" else 900
+    count = 200 if tier == "quick" else 1200
     cand = ops.corpus_cases(False) + ops.gen_ops_cases(rng, count * 2, False, max_atoms=4, max_conds=5, nq=5, prefix="c")
     m0 = common.run_model(cand)
     cases = [c for c in cand if m0[c["id"]]["part"] is not None and c["base"]][:count]
